@@ -29,6 +29,25 @@ fn v1_mime_lf(tag: u32) -> Vec<u8> {
     v1_mime_nl(tag, true, "\n")
 }
 
+/// The V2 document with an empty line after its `k`-th line (k ≥ 1). The BPSV reader skips empty
+/// lines, so this is the same table; on the wire it contains "\n\n" — the byte sequence the
+/// client's read loop looks for at the end of what it has received so far.
+fn bpsv_blank(tag: u32, k: usize) -> Vec<u8> {
+    let doc = bpsv(tag);
+    let mut out = Vec::new();
+    for (i, line) in doc.split_inclusive(|b| *b == b'\n').enumerate() {
+        out.extend_from_slice(line);
+        if i + 1 == k {
+            out.push(b'\n');
+        }
+    }
+    out
+}
+
+fn bpsv_lines(tag: u32) -> usize {
+    bpsv(tag).iter().filter(|b| **b == b'\n').count()
+}
+
 fn v1_mime_nl(tag: u32, good_checksum: bool, nl: &str) -> Vec<u8> {
     let body = String::from_utf8(bpsv(tag)).unwrap();
     let msg = format!("MIME-Version: 1.0{nl}Content-Type: multipart/alternative; boundary=\"b1\"{nl}{nl}--b1{nl}Content-Type: text/plain{nl}Content-Disposition: version{nl}{nl}{body}{nl}--b1--{nl}");
@@ -63,12 +82,27 @@ pub enum TB {
     /// V1 MIME with bare-LF line ends (segmentation scenarios only)
     ValidV1Lf,
     ValidV2,
+    /// V2 with an empty line after line k (segmentation scenarios only)
+    ValidV2Blank(u8),
     Malformed,
     WrongChecksum,
     Refuse,
     AcceptClose,
     CloseMid,
+    /// the valid V1 response (checksum line last), connection closed after its first n bytes
+    CloseAt(u16),
     Stall,
+}
+
+impl TB {
+    /// name without the position payload, for signatures
+    fn class_name(self) -> String {
+        match self {
+            TB::ValidV2Blank(_) => "ValidV2BlankLine".to_string(),
+            TB::CloseAt(_) => "ValidV1ClosedAt".to_string(),
+            other => format!("{other:?}"),
+        }
+    }
 }
 
 #[derive(Clone, Copy, Debug, PartialEq)]
@@ -78,6 +112,10 @@ enum Class {
     Definitive,
     /// failed, but the statement's vocabulary does not say whether the chain may go on
     Unclassified,
+    /// the peer closed the connection somewhere inside a valid response: a failure, unless
+    /// everything but (part of) the trailing checksum line had arrived — then the complete
+    /// document may also be returned (the data is unaltered; DESIGN §6, C07)
+    ClosedMidResponse,
 }
 
 fn hclass(b: HB) -> Class {
@@ -91,7 +129,8 @@ fn hclass(b: HB) -> Class {
 
 fn tclass(b: TB) -> Class {
     match b {
-        TB::ValidV1 | TB::ValidV1Lf | TB::ValidV2 => Class::Good,
+        TB::ValidV1 | TB::ValidV1Lf | TB::ValidV2 | TB::ValidV2Blank(_) => Class::Good,
+        TB::CloseAt(_) => Class::ClosedMidResponse,
         _ => Class::Unclassified, // last endpoint: any failure ends the query with an error
     }
 }
@@ -121,6 +160,12 @@ fn tcp_behaviour(b: TB, tag: u32, cut: Option<usize>, cut2: Option<usize>) -> Tc
         TB::ValidV1 => TcpBehaviour::Send { data: v1_mime(tag, true), cut, cut2 },
         TB::ValidV1Lf => TcpBehaviour::Send { data: v1_mime_lf(tag), cut, cut2 },
         TB::ValidV2 => TcpBehaviour::Send { data: bpsv(tag), cut, cut2 },
+        TB::ValidV2Blank(k) => TcpBehaviour::Send { data: bpsv_blank(tag, k as usize), cut, cut2 },
+        // the first n bytes, then the mock closes the connection (FIN), as CloseMid does at n = len/2
+        TB::CloseAt(n) => {
+            let full = v1_mime(tag, true);
+            TcpBehaviour::Send { data: full[..(n as usize).min(full.len())].to_vec(), cut: None, cut2: None }
+        }
         TB::Malformed => TcpBehaviour::Send { data: MALFORMED.to_vec(), cut: None, cut2: None },
         TB::WrongChecksum => TcpBehaviour::Send { data: v1_mime(tag, false), cut: None, cut2: None },
         TB::Refuse => TcpBehaviour::Refuse,
@@ -242,6 +287,11 @@ fn allowed(sc: &Scenario) -> Vec<([usize; 3], Result<String, ()>)> {
                 if i + 1 < chain.len() {
                     walk(chain, i + 1, c, out);
                 }
+            }
+            Class::ClosedMidResponse => {
+                // (only used for the last endpoint)
+                out.push((c, Err(())));
+                out.push((c, Ok(expected_tag(tag))));
             }
         }
     }
@@ -393,6 +443,15 @@ async fn run_scenario(sc: Scenario) -> (Scenario, Result<String, (String, String
     let obs_r: Result<String, ()> = first.result.clone().map_err(|_| ());
     let mut out_summary = format!("q1: contacts={:?} result={:?}", first.contacts, first.result);
     if !allow.iter().any(|(c, r)| *c == first.contacts && *r == obs_r) {
+        if let (TB::CloseAt(n), Ok(got)) = (sc.tcp, &first.result) {
+            // a prefix of the response was returned as a good answer
+            let rows = got.rsplit_once("/rows=").map_or("0", |(_, r)| r);
+            return fail(
+                "truncated-answer-accepted",
+                &format!("ValidV1-with-checksum|returned-rows={rows}-of-2"),
+                format!("{name}: the peer closed the connection after {n} of {} bytes of a V1 response whose last line is the checksum; the query returned a good answer ({got}) instead of failing — the complete answer is {}", v1_mime(300, true).len(), expected_tag(300)),
+            );
+        }
         // classify the disagreement
         let contacted_ok = allow.iter().any(|(c, _)| *c == first.contacts);
         let kind = if !contacted_ok { "fail-over-order" } else { "wrong-result" };
@@ -517,6 +576,29 @@ fn scenarios(tier: Tier) -> Vec<Scenario> {
     if cascette_protocol::mime_parser::parse_v1_mime_to_bpsv(&v1_mime_lf(300)).is_ok() && cascette_protocol::mime_parser::is_v1_mime_response(&v1_mime_lf(300)) {
         seg.push((TB::ValidV1Lf, v1_mime_lf(300)));
     }
+    // V2 with an empty line after line k, for every k (incl. a trailing one): the same table for the
+    // BPSV reader (checked here on the whole bytes, as for the LF variant), single cuts only
+    let mut seg_single_only: Vec<(TB, Vec<u8>)> = Vec::new();
+    for k in 1..=bpsv_lines(300) {
+        let data = bpsv_blank(300, k);
+        let same = std::str::from_utf8(&data).ok().and_then(|t| cascette_formats::bpsv::parse(t).ok()).and_then(|d| doc_tag(&d)) == Some(expected_tag(300));
+        if same {
+            seg_single_only.push((TB::ValidV2Blank(k as u8), data));
+        }
+    }
+    for (t, data) in &seg_single_only {
+        for cut in 1..data.len() {
+            out.push(Scenario { https: None, http: None, tcp: *t, cut: Some(cut), cut2: None, ttl_split: false, endpoint: "v1/summary", script: "qq", ttl_zero: false, disk_cache: false });
+        }
+    }
+    // (7) connection closed mid-response at every byte position of the V1 response (its checksum
+    // line comes last): never a good answer unless it is the complete one, never cached
+    let v1_len = v1_mime(300, true).len();
+    for n in 1..v1_len {
+        for disk in if tier == Tier::Thorough { vec![false, true] } else { vec![false] } {
+            out.push(Scenario { https: None, http: None, tcp: TB::CloseAt(n as u16), cut: None, cut2: None, ttl_split: false, endpoint: "v1/summary", script: "qq", ttl_zero: false, disk_cache: disk });
+        }
+    }
     for (t, data) in seg {
         let len = data.len();
         for cut in 1..len {
@@ -549,9 +631,10 @@ fn scenarios(tier: Tier) -> Vec<Scenario> {
 
 pub fn run(tier: Tier, seed: u64) -> i32 {
     let rep = Report::new("C13", tier, seed, Level::ModelChecking);
-    rep.set_rule("scenario = assignment of a behaviour to each of the three loopback endpoints × endpoint class × query script × TTL class × cache kind; (1) the full product of behaviours for versions/qq/1h/disk, (2) a reduced behaviour set across all other dimensions, (3) endpoint URLs present/empty, (4) every single cut position of every valid TCP response, (5) every pair (first cut anywhere, second cut at every later line end; thorough: later positions on a grid of 3), (6) query scripts around the expiry of a 2 s TTL in real time (same client, new client adopting the stored answer at once / mid-TTL / after expiry; own TTL class short with the others 1 h, or all short), judged only where the measured times leave no doubt; states = scenarios, transitions = queries issued, traces = scenarios executed on the real RibbitTactClient");
+    rep.set_rule("scenario = assignment of a behaviour to each of the three loopback endpoints × endpoint class × query script × TTL class × cache kind; (1) the full product of behaviours for versions/qq/1h/disk, (2) a reduced behaviour set across all other dimensions, (3) endpoint URLs present/empty, (4) every single cut position of every valid TCP response (V1 CRLF, V1 LF, V2, and V2 with an empty line after each of its lines), (5) every pair (first cut anywhere, second cut at every later line end; thorough: later positions on a grid of 3), (6) query scripts around the expiry of a 2 s TTL in real time (same client, new client adopting the stored answer at once / mid-TTL / after expiry; own TTL class short with the others 1 h, or all short), judged only where the measured times leave no doubt, (7) the connection closed by the peer after every proper prefix of the V1 response (checksum line last): an error, or the complete document once only the checksum line is cut, and nothing cached after an error; states = scenarios, transitions = queries issued, traces = scenarios executed on the real RibbitTactClient");
     rep.assume("loopback TCP, plain HTTP for the 'HTTPS' endpoint (as the repository's own tests do); real time; a refused connection is produced by a bound, non-listening socket");
     rep.assume("classification: 5xx/429/refused/stall = transient, 4xx other than 429 = definitive; 200+malformed body, accept-and-close, close-mid-body are 'failed' but not judged on stop-vs-continue (DESIGN §6)");
+    rep.assume("a V2 (plain BPSV) response closed at a row boundary is indistinguishable from a complete shorter response for any client (no length, no checksum): close-at-every-position is enumerated for the V1 response only, whose checksum line the statement of C07 names");
     rep.assume("a single cut is exhaustive for segmentation: the client's read loop state is the received prefix and its stop rule is evaluated at segment ends only");
     // machinery self-check: the canned documents parse and the malformed body does not
     if cascette_formats::bpsv::parse(std::str::from_utf8(&bpsv(1)).unwrap()).is_err() {
@@ -595,7 +678,7 @@ pub fn run(tier: Tier, seed: u64) -> i32 {
             }
             Err((kind, cls, detail)) => {
                 rep.add_outcome(crate::util::fnv64_str(kind));
-                let sig = if sc.cut.is_some() { format!("{kind}|segmentation|{:?}", sc.tcp) } else { format!("{kind}|{cls}") };
+                let sig = if sc.cut.is_some() { format!("{kind}|segmentation|{}", sc.tcp.class_name()) } else { format!("{kind}|{cls}") };
                 rep.violation(kind, &sig, json!({"scenario": sc.name(), "https": format!("{:?}", sc.https), "http": format!("{:?}", sc.http), "tcp": format!("{:?}", sc.tcp), "cut": sc.cut, "cut2": sc.cut2, "ttl_split": sc.ttl_split,
                     "endpoint": sc.endpoint, "script": sc.script, "ttl_zero": sc.ttl_zero, "disk_cache": sc.disk_cache}), detail);
             }
@@ -622,7 +705,16 @@ pub fn replay(w: &serde_json::Value) -> i32 {
     let parse_hb = |s: &str| -> Option<HB> {
         [HB::Valid, HB::S500, HB::S502, HB::S503, HB::S429, HB::S429RetryAfter, HB::S404, HB::S403, HB::Malformed, HB::Refuse, HB::AcceptClose, HB::CloseMid, HB::Stall].into_iter().find(|b| format!("Some({b:?})") == s)
     };
-    let parse_tb = |s: &str| -> TB { [TB::ValidV1, TB::ValidV1Lf, TB::ValidV2, TB::Malformed, TB::WrongChecksum, TB::Refuse, TB::AcceptClose, TB::CloseMid, TB::Stall].into_iter().find(|b| format!("{b:?}") == s).unwrap_or(TB::Refuse) };
+    let parse_tb = |s: &str| -> TB {
+        let payload = |prefix: &str| -> Option<u64> { s.strip_prefix(prefix)?.strip_suffix(')')?.parse().ok() };
+        if let Some(k) = payload("ValidV2Blank(") {
+            return TB::ValidV2Blank(k as u8);
+        }
+        if let Some(n) = payload("CloseAt(") {
+            return TB::CloseAt(n as u16);
+        }
+        [TB::ValidV1, TB::ValidV1Lf, TB::ValidV2, TB::Malformed, TB::WrongChecksum, TB::Refuse, TB::AcceptClose, TB::CloseMid, TB::Stall].into_iter().find(|b| format!("{b:?}") == s).unwrap_or(TB::Refuse)
+    };
     let endpoint: &'static str = ["v1/products/wow/versions", "v1/products/wow/cdns", "v1/products/wow/bgdl", "v1/summary", "v1/certs/abc"].into_iter().find(|e| Some(*e) == wit["endpoint"].as_str()).unwrap_or("v1/products/wow/versions");
     let sc = Scenario {
         https: parse_hb(wit["https"].as_str().unwrap_or("")),
